@@ -4,7 +4,7 @@ import MlModel.Lemmas.QueueInv
 
 Queue-level invariants used by C15: a queue fed by a single `enqueue_from_iterator` thread `P`
 (source `src`, return value `ret`, no declared `max_enqueuer`, no stop request, no time-out) and
-drained by one `get_batch(n, block=True, keep_partial=True)` caller at a time.
+drained by one `get_batch(n, block=True, keep_partial=True)` (the queue's `keepPartial` flag is set) caller at a time.
 
 * `ProdOK`  — the producer's program point determines the counters, the recorded exception and how
               much of the source has been enqueued: `src = produced ++ (value in hand) ++ rest` exactly;
@@ -81,6 +81,7 @@ namespace MlModel.Queue
 
 /-- what a producer step may do to the rest of the queue state -/
 def ProdFrame (q q' : Shared) : Prop :=
+  q'.keepPartial = q.keepPartial ∧
   q'.dequeued = q.dequeued ∧ q'.exhausted = q.exhausted ∧ q'.lost = q.lost ∧
   ((q'.q = q.q ∧ q'.produced = q.produced) ∨
     (q.enqueueDone = false ∧ ∃ e, q'.q = q.q ++ [e] ∧ q'.produced = q.produced ++ [e])) ∧
@@ -104,7 +105,7 @@ macro "spsc_prod_group" : tactic => `(tactic| (
     (repeat' split at h) <;>
     (try simp only [Option.some.injEq, Prod.mk.injEq, reduceCtorEq] at h) <;>
     (try (obtain ⟨-, rfl, rfl⟩ := h)) <;>
-    (refine ⟨⟨?_, ?_, ?_, ?_, ?_⟩, ?_, ?_, ?_, ?_, ?_⟩) <;>
+    (refine ⟨⟨?_, ?_, ?_, ?_, ?_⟩, ?_, ?_, ?_, ?_, ?_, ?_⟩) <;>
     simp_all [ProdPc, Ctr1, EndOK, asItems, Shared.setOwner, Shared.enqueueDone, Shared.full] <;>
     (try assumption) <;>
     (try (intro a b hm; rcases hm with hm | hm
@@ -140,7 +141,7 @@ end MlModel.Queue
 
 namespace MlModel.Queue
 
-/-- thread-local facts of a `get_batch(n, block=True, keep_partial=True)` caller (no time-out fires):
+/-- thread-local facts of a `get_batch(n, block=True, keep_partial=True)` (the queue's `keepPartial` flag is set) caller (no time-out fires):
 a raise never drops a partial batch, and an armed end-of-stream exception implies `exhausted` -/
 structure KeepOK (q : Shared) (C : Thread) : Prop where
   keep : C.pc = .bRaise → C.result = []
@@ -152,6 +153,7 @@ structure KeepOK (q : Shared) (C : Thread) : Prop where
 
 /-- what a consumer step may do to the rest of the queue state -/
 def ConsFrame (q q' : Shared) : Prop :=
+  q'.keepPartial = q.keepPartial ∧
   q'.exc = q.exc ∧ q'.stopRequested = q.stopRequested ∧ q'.start = q.start ∧ q'.stop = q.stop ∧
   q'.maxEnq = q.maxEnq ∧ q'.returned = q.returned ∧ q'.produced = q.produced ∧ q'.ignoreError = q.ignoreError ∧
   (q'.exhausted = true → q.exhausted = true ∨ (q'.q = [] ∧ q.enqueueDone = true)) ∧
@@ -159,12 +161,12 @@ def ConsFrame (q q' : Shared) : Prop :=
   (q'.q = q.q ∨ ∃ e, q.q = e :: q'.q)
 
 def ConsStepOK (n : Nat) (ctid : Tid) (q : Shared) (C : Thread) : Prop :=
-  ∀ lbl q' C', stepThread q C ctid false = some (lbl, q', C') → C.prog = .batchKeep n → TOK C →
-    q.ignoreError = false → KeepOK q C → KeepOK q' C' ∧ ConsFrame q q'
+  ∀ lbl q' C', stepThread q C ctid false = some (lbl, q', C') → C.prog = .batchLoop n true → TOK C →
+    q.ignoreError = false → q.keepPartial = true → KeepOK q C → KeepOK q' C' ∧ ConsFrame q q'
 
 set_option hygiene false in
 macro "spsc_cons_group" : tactic => `(tactic| (
-  intro lbl q' C' h hprog htok hni hK
+  intro lbl q' C' h hprog htok hni hkp hK
   have hk := htok.kind
   obtain ⟨hkeep, harmN, harmR, hidleS, hidleB, hidleD⟩ := hK
   unfold stepThread at h
@@ -176,8 +178,8 @@ macro "spsc_cons_group" : tactic => `(tactic| (
     (repeat' split at h) <;>
     (try simp only [Option.some.injEq, Prod.mk.injEq, reduceCtorEq] at h) <;>
     (try (obtain ⟨-, rfl, rfl⟩ := h)) <;>
-    (refine ⟨⟨?_, ?_, ?_, ?_, ?_, ?_⟩, ?_, ?_, ?_, ?_, ?_, ?_, ?_, ?_, ?_, ?_, ?_⟩) <;>
-    (first | simp_all [Shared.setOwner, Shared.enqueueDone, Shared.final, Thread.batchKeep, Thread.batchMax,
+    (refine ⟨⟨?_, ?_, ?_, ?_, ?_, ?_⟩, ?_, ?_, ?_, ?_, ?_, ?_, ?_, ?_, ?_, ?_, ?_, ?_⟩) <;>
+    (first | simp_all [Shared.setOwner, Shared.enqueueDone, Shared.final, Thread.batchMax,
       Thread.batchBlock, Prog.kind, pcKind] | skip)))
 
 theorem spsc_cons_g0 {n ctid q C} (hg : C.pc.group = 0) : ConsStepOK n ctid q C := by spsc_cons_group
@@ -206,6 +208,7 @@ namespace MlModel.Queue
 structure Spsc (src : List Item) (ret : Nat) (ptid : Tid) (delivered : List Elem)
     (q : Shared) (P C : Thread) : Prop where
   prod : ProdOK src ret ptid q P
+  keepP : q.keepPartial = true
   ctok : TOK C
   keep : KeepOK q C
   deq : q.dequeued = delivered ++ seqOf C
@@ -230,12 +233,12 @@ theorem enqueueDone_congr {q q' : Shared}
 
 /-- a consumer step preserves the invariant -/
 theorem Spsc.cons_step {src ret ptid delivered q P C n ctid lbl q' C'}
-    (hI : Spsc src ret ptid delivered q P C) (hprog : C.prog = .batchKeep n)
+    (hI : Spsc src ret ptid delivered q P C) (hprog : C.prog = .batchLoop n true)
     (h : stepThread q C ctid false = some (lbl, q', C')) :
-    Spsc src ret ptid delivered q' P C' ∧ C'.prog = .batchKeep n := by
-  obtain ⟨hK', hF⟩ := spsc_cons_step lbl q' C' h hprog hI.ctok hI.prod.noign hI.keep
+    Spsc src ret ptid delivered q' P C' ∧ C'.prog = .batchLoop n true := by
+  obtain ⟨hK', hF⟩ := spsc_cons_step lbl q' C' h hprog hI.ctok hI.prod.noign hI.keepP hI.keep
   obtain ⟨htok', hprog', hq, hdq, hpr, hlost, hseq⟩ := stepThread_data lbl q' C' h hI.ctok
-  obtain ⟨f1, f2, f3, f4, f5, f6, f7, f8, f9, f10, f11⟩ := hF
+  obtain ⟨f0, f1, f2, f3, f4, f5, f6, f7, f8, f9, f10, f11⟩ := hF
   have hnew : newOf q C = [] := by
     unfold newOf
     split
@@ -250,7 +253,8 @@ theorem Spsc.cons_step {src ret ptid delivered q P C n ctid lbl q' C'}
     · rfl
   rw [hnew, List.append_nil] at hq hpr
   rw [hdrop, List.append_nil] at hlost hseq
-  refine ⟨⟨hI.prod.congr f1 f2 f3 f4 f5 f6 f7 f8, htok', hK', ?_, ?_, ?_, ?_⟩, by rw [hprog']; exact hprog⟩
+  refine ⟨⟨hI.prod.congr f1 f2 f3 f4 f5 f6 f7 f8, by rw [f0]; exact hI.keepP, htok', hK', ?_, ?_, ?_, ?_⟩,
+    by rw [hprog']; exact hprog⟩
   · rw [hdq, hI.deq, List.append_assoc, hseq]
   · rw [hlost]; exact hI.lost
   · rw [hpr, hdq, hI.fifo, List.append_assoc, hq]
@@ -268,8 +272,8 @@ theorem Spsc.prod_step {src ret ptid delivered q P C lbl q' P'}
     (hI : Spsc src ret ptid delivered q P C)
     (h : stepThread q P ptid false = some (lbl, q', P')) :
     Spsc src ret ptid delivered q' P' C := by
-  obtain ⟨hP', g1, g2, g3, g4, g5⟩ := spsc_prod_step lbl q' P' h hI.prod
-  refine ⟨hP', hI.ctok, ⟨hI.keep.keep, ?_, ?_, hI.keep.idleS, hI.keep.idleB, hI.keep.idleD⟩, by rw [g1]; exact hI.deq, by rw [g3]; exact hI.lost, ?_, ?_⟩
+  obtain ⟨hP', g0, g1, g2, g3, g4, g5⟩ := spsc_prod_step lbl q' P' h hI.prod
+  refine ⟨hP', by rw [g0]; exact hI.keepP, hI.ctok, ⟨hI.keep.keep, ?_, ?_, hI.keep.idleS, hI.keep.idleB, hI.keep.idleD⟩, by rw [g1]; exact hI.deq, by rw [g3]; exact hI.lost, ?_, ?_⟩
   · intro c hc; rw [g2]; exact hI.keep.armedN c hc
   · intro c hc hx; rw [g2]; exact hI.keep.armedR c hc hx
   · rcases g4 with ⟨a, b⟩ | ⟨_, e, a, b⟩
@@ -304,13 +308,13 @@ theorem Quiet.keepOK {q : Shared} {C : Thread} (h : Quiet C) : KeepOK q C := by
 /-- the consumer slot is handed to another quiet thread that holds the same elements -/
 theorem Spsc.swap {src ret ptid d q P C C'} (hI : Spsc src ret ptid d q P C) (hq : Quiet C')
     (hs : C'.received = seqOf C) : Spsc src ret ptid d q P C' :=
-  ⟨hI.prod, hq.tok, hq.keepOK, by rw [hq.seqOf, hs]; exact hI.deq, hI.lost, hI.fifo, hI.exh⟩
+  ⟨hI.prod, hI.keepP, hq.tok, hq.keepOK, by rw [hq.seqOf, hs]; exact hI.deq, hI.lost, hI.fifo, hI.exh⟩
 
 /-- a finished call hands its elements over: they count as delivered, the slot is empty again -/
 theorem Spsc.deliver {src ret ptid d q P C C'} (hI : Spsc src ret ptid d q P C) (hC : Quiet C)
     (hq : Quiet C') (hs : C'.received = []) : Spsc src ret ptid (d ++ C.received) q P C' :=
-  ⟨hI.prod, hq.tok, hq.keepOK, by rw [hq.seqOf, hs, List.append_nil, hI.deq, hC.seqOf], hI.lost, hI.fifo,
-    hI.exh⟩
+  ⟨hI.prod, hI.keepP, hq.tok, hq.keepOK, by rw [hq.seqOf, hs, List.append_nil, hI.deq, hC.seqOf], hI.lost,
+    hI.fifo, hI.exh⟩
 
 /-- what `exhausted` tells the consumer: everything enqueued has been taken out, and the enqueuer ended
 normally with the whole source (return value recorded) or at its first failing item -/
@@ -347,8 +351,9 @@ theorem Spsc.prefix {src ret ptid d q P C} (hI : Spsc src ret ptid d q P C) :
 /-- a fresh queue with its not yet started prefetch thread and no consumer -/
 theorem spsc_fresh (src : List Item) (ret : Nat) (ptid : Tid) (cap : Nat) (C : Thread) (hq : Quiet C)
     (hr : C.received = []) :
-    Spsc src ret ptid [] { cap := cap } { prog := .producer src ret, pc := .sAcq, src := src } C := by
-  refine ⟨⟨rfl, rfl, rfl, by simp, ?_⟩, hq.tok, hq.keepOK, by simp [hq.seqOf, hr], rfl, rfl, by simp⟩
+    Spsc src ret ptid [] { cap := cap, keepPartial := true }
+      { prog := .producer src ret, pc := .sAcq, src := src } C := by
+  refine ⟨⟨rfl, rfl, rfl, by simp, ?_⟩, rfl, hq.tok, hq.keepOK, by simp [hq.seqOf, hr], rfl, rfl, by simp⟩
   simp [ProdPc]
 
 end MlModel.Queue
